@@ -83,6 +83,7 @@ type DataSource interface {
 	ProcessSegments(*dataBlock) error
 	RunDoneActivate()
 	RunDoneDeactivate()
+	RunDoneChan() <-chan struct{}
 	ShouldAutoRestart() bool
 	getPulseLengths() (int, int, error)
 	ArchiveDataBlock(int, *os.File, string) error
@@ -94,6 +95,7 @@ func (ds *AnySource) RunDoneActivate() {
 	defer ds.sourceStateLock.Unlock()
 	ds.sourceState = Active
 	ds.runDone.Add(1)
+	ds.runDoneChan = make(chan struct{})
 	verifPoint("run.activate")
 }
 
@@ -102,8 +104,17 @@ func (ds *AnySource) RunDoneDeactivate() {
 	ds.sourceStateLock.Lock()
 	ds.sourceState = Inactive
 	verifPoint("run.deactivate")
+	close(ds.runDoneChan)
 	ds.runDone.Done()
 	ds.sourceStateLock.Unlock()
+}
+
+// RunDoneChan returns a channel that is closed when the current (or most recent) run is done.
+// It is nil if the source was never started.
+func (ds *AnySource) RunDoneChan() <-chan struct{} {
+	ds.sourceStateLock.Lock()
+	defer ds.sourceStateLock.Unlock()
+	return ds.runDoneChan
 }
 
 // RunDoneWait returns when the source run is done, i.e., the source is stopped
@@ -352,6 +363,7 @@ type AnySource struct {
 	sourceState         SourceState
 	sourceStateLock     sync.Mutex // guards sourceState
 	runDone             sync.WaitGroup
+	runDoneChan         chan struct{} // closed when the run is done (see RunDoneChan)
 	readCounter         int
 	channelsPerPixel    int
 }
